@@ -688,7 +688,7 @@ func check(id, tier string) int {
 					l := strings.TrimPrefix(rs.Label, "reach:")
 					if ok && (r.Outcome == "ok" || r.Outcome == "script-exhausted") && (has(r.Reached, l) || r.Outcome == "script-exhausted") && len(r.Failed) == 0 {
 						validated++
-					} else if ok && isKnownOutcome(known, id, rs.Entry, r) {
+					} else if ok && (r.Outcome == "ok" || r.Outcome == "script-exhausted") && demonstratesAll(u, rs.Entry, r.Failed) {
 						validated++
 					} else {
 						fmt.Printf("UNCONFIRMED property=%s witness %s/%s: native run outcome=%v (engine and real build disagree)\n", id, rs.Entry, l, r)
@@ -777,7 +777,19 @@ func check(id, tier string) int {
 	return 0
 }
 
-func isKnownOutcome(k KnownFile, id, entry string, r nativeResult) bool {
+// demonstratesAll: every failed label of the native run is one the harness is
+// declared to demonstrate (a recorded finding).
+func demonstratesAll(u *Unit, entry string, failed []string) bool {
+	for hi := range u.Harnesses {
+		if u.Harnesses[hi].Entry == entry {
+			for _, f := range failed {
+				if !has(u.Harnesses[hi].Demonstrates, f) {
+					return false
+				}
+			}
+			return true
+		}
+	}
 	return false
 }
 
